@@ -64,6 +64,10 @@ func (ls *listenServer) OnCReact(r *core.Msg, c core.CConn) (out []byte, action 
 
 	core.GlobalStats.ReqCmdIncr(r.Type)
 
+	// Resolve a connection for every fragment before queueing any of them: a request that is
+	// rejected half-way must not leave fragments behind on backend connections, because the
+	// request object is recycled as soon as the error reply is produced.
+	routed = routed[:0]
 	for slot, frag := range r.Body {
 		if r.Type == codec.ReqAuth {
 			if len(ls.Password) < 1 {
@@ -99,18 +103,29 @@ func (ls *listenServer) OnCReact(r *core.Msg, c core.CConn) (out []byte, action 
 				return codec.ErrUnKnown.Bytes(), core.None
 			}
 		}
-		frag.Owner = c
-
 		logging.Debugfunc(func() string {
 			return fmt.Sprintf("[%dm|%df][%dc|%ds] key '%s' maps to server '%s' in slot %d", r.Id, frag.Id, c.Fd(), sConn.Fd(), frag.Key, addr, slot)
 		})
 
-		sConn.EnqueueOutFrag(frag)
+		routed = append(routed, routedFrag{sConn, frag})
+	}
+
+	for _, rf := range routed {
+		rf.frag.Owner = c
+		rf.conn.EnqueueOutFrag(rf.frag)
 	}
 
 	c.EnqueueInMsg(r)
 	return
 }
+
+type routedFrag struct {
+	conn core.SConn
+	frag *core.Frag
+}
+
+// routed to avoid frequent memory alloc, like liveSlaves
+var routed []routedFrag
 
 // getConn Get an available connection from the redis connection pool
 func (ls *listenServer) getConn(r *core.Msg, slot int32) (core.SConn, error, bool, string) {
